@@ -282,11 +282,13 @@ def _sec_interface(ctx, mo, reg, fam, rng, n_pose):
     """every registered score can be evaluated through score(x) / score_translation / score_angles"""
     data, coords, w = _scene(rng)
     for name in reg:
-        for mask in ("full", "none"):
-            inp = {"score": name, "mask": mask}
+        for mask, layout in (("full", "C"), ("none", "C"), ("full", "F")):
+            if layout == "F" and fam[name] != "d2d":
+                continue
+            inp = {"score": name, "mask": mask, "template_layout": layout}
             try:
                 with _quiet():
-                    o = _make_any(mo, name, fam[name], data, coords, w, mask)
+                    o = _make_any(mo, name, fam[name], data, coords, w, mask, layout=layout)
                 vals = []
                 for _ in range(n_pose):
                     x = _rand_pose(rng, str(rng.choice(POSE_KINDS)), data.shape[0])
@@ -304,15 +306,18 @@ def _sec_interface(ctx, mo, reg, fam, rng, n_pose):
             ctx.spec("every registered score evaluates through score(x) to a finite value", inp, ok, detail,
                      key=f"callable:{name}")
             ctx.count(f"interface:{fam[name]}")
-            ctx.distinct(("interface", name, mask))
+            ctx.distinct(("interface", name, mask, layout))
 
 
-def _make_any(mo, name, fam, data, coords, w, mask="full", negate=True, **kw):
+def _make_any(mo, name, fam, data, coords, w, mask="full", negate=True, layout="C", **kw):
     if fam == "d2d":
         n = data.shape
         lo = [int(s // 4) for s in n]
         tmpl = data[tuple(slice(a, a + s // 2) for a, s in zip(lo, n))].copy()
         m = None if mask == "none" else (tmpl > 0.02).astype(np.float32) if mask == "sub" else np.ones_like(tmpl)
+        if layout == "F":          # the same values in Fortran order (what vol.T / np.asfortranarray hand over)
+            tmpl = np.asfortranarray(tmpl)
+            m = None if m is None else np.asfortranarray(m)
         return mo.create_score_object(name, target=data.copy(), template=tmpl, template_mask=m, negate_score=negate, **kw)
     return _make(mo, name, fam, data, coords, w, mask, negate, **kw)
 
@@ -772,6 +777,9 @@ def _sec_optimize(ctx, mo, rng, n_stub, n_real):
         method = methods[i % 3] if not real else str(rng.choice(methods, p=[0.5, 0.2, 0.3]))
         bk = str(rng.choice(["none", "t", "r", "both"], p=[0.15, 0.2, 0.2, 0.45]))
         style = str(rng.choice(["around0", "exclude0", "mixed"]))
+        force_outside = bool(real and i % 4 == 1)        # every fourth real run: population-based optimiser, box that excludes 0
+        if force_outside:
+            method, bk, style = "differential_evolution", "t", "exclude0"
         if real and method == "differential_evolution" and bk in ("none", "r"):
             bk = "both" if bk == "r" else "t"     # documented: differential_evolution requires bounds on translation
         bt = _gen_bounds(rng, style) if bk in ("t", "both") else None
@@ -786,6 +794,11 @@ def _sec_optimize(ctx, mo, rng, n_stub, n_real):
             x0 = None if (zero_ok and rng.random() < 0.5) else tuple(inside(bt, 1.0) + inside(br, 10.0))
         else:
             x0 = None if (zero_ok and rng.random() < 0.35) else tuple(inside(bt, 1.0) + inside(br, 10.0))
+        # the documented interface does not require the start to lie inside the box: with the population-based optimiser (which
+        # takes no start) a box that excludes the default start 0 must still produce a result, not an exception
+        outside_start = bool(real and method == "differential_evolution" and not zero_ok and (force_outside or rng.random() < 0.5))
+        if outside_start:
+            x0 = None
         mode = str(rng.choice(["inside", "equal-start", "far"], p=[0.7, 0.15, 0.15]))
 
         if mode == "equal-start":
@@ -845,6 +858,11 @@ def _sec_optimize(ctx, mo, rng, n_stub, n_real):
         tol_b = 2e-3 if real else 2e-6
         ok_b = (bt is None or _in_user_bounds(pose[:3], bt, tol_b)) and (br is None or _in_user_bounds(pose[3:], br, tol_b)) \
             and np.allclose(np.asarray(R, dtype=float), euler_to_rotationmatrix(ang), atol=1e-6)
+        if outside_start:
+            inp["start_outside_bounds"] = True
+            # the start itself is not admissible: only a pose that differs from it has to respect the box
+            res_in = bool(np.max(np.abs(pose - x0_eff)) > 1e-9)
+            ctx.count("opt:real:start-outside-bounds")
         if res_in:
             ctx.spec("optimize_match returns a pose inside the given bounds", inp, ok_b,
                      {"translation": pose[:3], "angles": pose[3:]}, key=f"opt:in-bounds:{method}")
